@@ -48,8 +48,12 @@ class SolveEvent:
 class SolveSeam:
     """Context manager: while active, every cvxpy.Problem.solve goes through us.
 
-    fail_at : set of solve indices (0-based, counted within this context) that
-              raise cvxpy.SolverError instead of calling through.
+    fail_at : set of *top-level* solve indices (0-based, counted within this context;
+              solves that cvxpy issues from inside another solve - DQCP bisection probes -
+              are recorded but neither counted nor failed: cvxpy swallows a failing probe and
+              merely bisects differently, which is not a failure of the solver service as the
+              library under test sees it) that raise cvxpy.SolverError instead of calling
+              through.
     cold    : if True, pass warm_start=False to every solve.
     The wrapper never alters a result it lets through.
     """
@@ -71,8 +75,10 @@ class SolveSeam:
         seam = self
 
         def solve(problem, *args, **kwargs):
-            k = seam.count
-            seam.count += 1
+            nested = seam.depth > 0
+            k = seam.count if not nested else -1
+            if not nested:
+                seam.count += 1
             ev = SolveEvent()
             ev.seq = k
             ev.faulted = False
@@ -86,7 +92,7 @@ class SolveSeam:
                 ev.var_shapes = ev.param_sizes = ()
             ev.kwargs = tuple(sorted(str(x) for x in kwargs))
             seam.events.append(ev)
-            if k in seam.fail_at:
+            if not nested and k in seam.fail_at:
                 ev.faulted = True
                 seam.fired += 1
                 raise cp.SolverError(f"[sim] injected solver failure at solve #{k}")
